@@ -50,6 +50,9 @@ def run(ck, ctx):
     ck.nd("prefix-stability and encode/decode identity for all values (needs execution or proof)")
     ck.assume("a dominating comparison against the input length is taken as a bound (its strength is not proven)")
     ck.rule("R15.13", INCOMPLETE_TEXT)
+    ck.rule("R15.14", "the terminator scan gives up one byte at a time: in the line-terminator searches of both decoders a candidate `\\r` that is "
+                      "not followed by `\\n` moves the resume position to candidate + 1 (the byte after a lone CR can itself be the CR of the real "
+                      "terminator: `+\\r\\r\\n` must decode, and two frames must never be merged into one)")
     for cfg in ctx.configs:
         prog = ctx.prog(cfg)
         ck.configs.append(cfg)
@@ -65,6 +68,7 @@ def run(ck, ctx):
         _r1510(ck, prog, cfg)
         _r1512(ck, prog, cfg)
         incomplete_rule(ck, prog, cfg, "R15.13")
+        _r1514(ck, prog, cfg)
         _bounds.rule(ck, prog, cfg, "R15.11", ("src/redis/resp.rs", "src/redis/resp_optimized.rs", "src/production/connection_optimized.rs"),
                      "a frame that is split by the network right there (or a malformed one)", floor=12, tag=_tag(cfg))
     _r156(ck, ctx)
@@ -443,6 +447,16 @@ def _r155(ck, prog, cfg):
                     some_t = edge_targets(f, sb, 1)
                     reg = ({none_t} | f.reach([none_t], avoid=[sb])) - ({some_t} | f.reach([some_t], avoid=[sb]))
                     texts = [_lit(f, tt["args"][0]) for x in reg for tt in [f.term(x)] if tt["k"] == "call" and is_callee(tt, r"ToString>::to_string$") and tt["args"]]
+                    # any other way of producing an error text on the no-terminator edge (format!, String::from, a crate-local helper that
+                    # returns its own Result) is a second, non-sentinel answer for an unterminated line
+                    for x in reg:
+                        tt = f.term(x)
+                        if tt["k"] != "call":
+                            continue
+                        cn = callee(tt) or ""
+                        if re.search(r"^std::fmt::format$|String as std::convert::From<.*>>::from$|ToOwned>::to_owned$|^alloc::fmt::format$", cn) or \
+                                (cn in prog.fns and "Result<" in str(prog.fns[cn].locals[0]) and "String" in str(prog.fns[cn].locals[0])):
+                            texts.append("<%s>" % cn.rsplit("::", 1)[-1])
                     n += 1
                     ck.check(texts == ['"Incomplete"'], "R15.5", "%s:no-terminator-is-incomplete%s" % (name, _tag(cfg)),
                              "a line without terminator is not reported as Incomplete (%s): a proper prefix of a valid frame would be a "
@@ -877,3 +891,32 @@ def incomplete_rule(ck, prog, cfg, rid):
                      "incomplete, so the connection waits for more input and the command's reply never comes" % bad, f.where(t["ln"]),
                      detail="decided by terminator / exact position")
     ck.floor(rid + _tag(cfg), n, 8)
+
+
+def _r1514(ck, prog, cfg):
+    n = 0
+    fns = [f for f in prog.lib_fns() if f.file in ("src/redis/resp.rs", "src/redis/resp_optimized.rs") and f.short == "find_crlf" and "::tests::" not in f.id]
+    if len(fns) < 2:
+        ck.anchor_lost("R15.14", "the find_crlf helpers of RespParser and RespCodec were not both found")
+        return
+    for f in fns:
+        defs = f.defs()
+        owner = (f.impl_self or "").rsplit("::", 1)[-1]
+        k = 0
+        for b, i, st in f.stmts():
+            rv = st["rv"]
+            l = st["lhs"].get("l")
+            if st["lhs"].get("p") or rv["k"] != "bin" or not rv["op"].startswith("Add"):
+                continue
+            # a loop-carried position: a local with more than one definition (initialised before the loop, advanced inside it)
+            if len(defs.get(l, [])) < 2:
+                continue
+            c = (rv["b"].get("c") or rv["a"].get("c") or "").replace("const ", "")
+            n += 1
+            ck.check(c == "1_usize", "R15.14", "%s::find_crlf:resume#%d%s" % (owner, k, _tag(cfg)),
+                     "after a `\\r` that is not followed by `\\n` the scan resumes %s bytes further (not 1): the skipped byte can be the `\\r` of the real "
+                     "terminator, so a complete line is reported as unterminated or swallowed into the next frame" % (c or "a variable number of"),
+                     f.where(st["ln"]), detail="resume = candidate + 1")
+            k += 1
+        ck.ok("R15.14", "%s::find_crlf:scanned%s" % (owner, _tag(cfg)), detail="%d loop-carried position updates" % k)
+    ck.floor("R15.14" + _tag(cfg), n, 1)
